@@ -1886,10 +1886,11 @@ package exec
 //@   ensures err == nil && sbstr(deref(b)) == old(sbstr(deref(b))) + runeStr(r)
 
 //@ extern strings.Builder.WriteByte(b, c) (err)
+//@   uses strbuilder strfn
 //@   requires b != nil
 //@   modifies b
 //@   noalloc
-//@   ensures err == nil
+//@   ensures err == nil && sbstr(deref(b)) == old(sbstr(deref(b))) + byteStr(c)
 
 //@ extern strings.Builder.Grow(b, n) ()
 //@   uses strbuilder
@@ -1900,8 +1901,9 @@ package exec
 
 //@ extern strings.Builder.Len(b) (r)
 //@   pure
+//@   uses strbuilder
 //@   requires b != nil
-//@   ensures r >= 0
+//@   ensures r == len(sbstr(deref(b)))
 
 //@ func concat(context, args) (r, err)
 //@   property C07 C13 C15
@@ -1972,22 +1974,25 @@ package exec
 
 //@ func normalizeXmlSpace(s) (r)
 //@   property C07 C13 C15
-//@   uses strnum
+//@   uses strnum strfn strbuilder
+//@   ensures r == nsPre(s, len(s))                                             @white-space-stripped-and-collapsed
 //@   loop 0
 //@     invariant 0 <= i && i <= len(s)
+//@     invariant sbstr(deref(addrof_ret)) == nsPre(s, i)
+//@     invariant pending == (i > 0 && xmlSp(sbyte(s, i - 1)) && nsPre(s, i) != "")
 //@     decreases len(s) - i
 
 //@ func normalizeSpace0(context, args) (r, err)
 //@   property C07 C13 C15
-//@   uses values
+//@   uses values strfn
 //@   requires context != nil && context.result != nil
-//@   ensures err == nil && isVStr(r)
+//@   ensures err == nil && r == VStr(nsPre(toStr(context.result), len(toStr(context.result))))
 
 //@ func normalizeSpace1(context, args) (r, err)
 //@   property C07 C13 C15
-//@   uses values
+//@   uses values strfn
 //@   requires len(args) == 1 && args[0] != nil
-//@   ensures err == nil && isVStr(r)
+//@   ensures err == nil && r == VStr(nsPre(toStr(args[0]), len(toStr(args[0]))))
 
 //@ macro TRS = toStr(args[0])
 //@ macro TRF = toStr(args[1])
